@@ -932,45 +932,80 @@ Proof.
 Qed.
 
 (* ================================================================== Part 4: directory comparators *)
-Lemma utf16_decode_ascii a : forallb caseless_ascii a = true -> utf16_decode a = a.
+Lemma less_loop_units a : forall b pa pb fuel k n,
+  length pa = length pb -> k = zlen pa -> zlen a = zlen b -> n = k + zlen a -> n <= name_runes ->
+  (length a < fuel)%nat -> forallb unit_agrees a = true -> forallb unit_agrees b = true ->
+  less_loop fuel n name_runes k (pa ++ a) (pb ++ b) = units_lt a b.
 Proof.
-  induction a as [|x r IH]; [reflexivity|]. cbn [forallb]. intros H. apply andb_true_iff in H as [Hx Hr].
-  specialize (IH Hr). unfold caseless_ascii in Hx. cbn [utf16_decode].
-  assert (Hhi : is_hi x = false) by (unfold is_hi; lia). assert (Hlo : is_lo x = false) by (unfold is_lo; lia).
-  destruct r as [|y r']; rewrite Hhi, Hlo; cbn [andb orb]; [reflexivity|]. rewrite IH. reflexivity.
+  induction a as [|x a IH]; intros b pa pb fuel k n Hp Hk Hl Hn Hcap Hf Ha Hb.
+  - destruct b; [|unfold zlen in Hl; cbn in Hl; lia]. destruct fuel; [lia|]. cbn [less_loop units_lt].
+    unfold less_loop_cond, less_equal_ret. unfold zlen in Hn; cbn in Hn. replace (k <? n) with false by lia. reflexivity.
+  - destruct b as [|y b]; [unfold zlen in Hl; cbn in Hl; lia|]. destruct fuel as [|f]; [lia|].
+    cbn [forallb] in Ha, Hb. apply andb_true_iff in Ha as [Hx Ha]. apply andb_true_iff in Hb as [Hy Hb].
+    rewrite !zlen_cons in *. pose proof (zlen_nonneg a). cbn [less_loop units_lt].
+    unfold less_loop_cond. replace ((k <? n) && (k <? name_runes)) with true by lia.
+    assert (Hka : Z.to_nat k = length pa) by (unfold zlen in Hk; lia).
+    rewrite Hka. rewrite app_nth2 by lia. rewrite Nat.sub_diag. cbn [nth].
+    rewrite Hp. rewrite app_nth2 by lia. rewrite Nat.sub_diag. cbn [nth].
+    unfold unit_agrees in Hx, Hy. apply Z.eqb_eq in Hx, Hy. rewrite Hx, Hy.
+    unfold less_unit_differs, less_unit_ret.
+    destruct (upcase x =? upcase y) eqn:E; cbn [negb].
+    + replace (upcase x <? upcase y) with false by lia. replace (upcase y <? upcase x) with false by lia.
+      replace (pa ++ x :: a) with ((pa ++ [x]) ++ a) by (rewrite <- app_assoc; reflexivity).
+      replace (pb ++ y :: b) with ((pb ++ [y]) ++ b) by (rewrite <- app_assoc; reflexivity).
+      apply IH; try assumption.
+      * rewrite !app_length. cbn. lia.
+      * rewrite zlen_app. unfold zlen at 2. cbn. lia.
+      * lia.
+      * lia.
+      * cbn in Hf. lia.
+    + destruct (upcase x <? upcase y) eqn:E2; [reflexivity|]. replace (upcase y <? upcase x) with true by lia. reflexivity.
 Qed.
-Lemma utf8_ascii a : forallb caseless_ascii a = true -> utf8_of_units a = a.
+
+(* relic_order_eq_cfb: on names of at most 31 code units (every name a directory entry can hold) all of whose units are in
+   the agreement domain, lessDirEnt is the MS-CFB sibling order *)
+Lemma relic_less_eq_cfb_less a b : zlen a < name_runes -> zlen b < name_runes ->
+  forallb unit_agrees a = true -> forallb unit_agrees b = true -> relic_less a b = cfb_less a b.
 Proof.
-  intros H. unfold utf8_of_units. rewrite utf16_decode_ascii by exact H.
-  induction a as [|x r IH]; [reflexivity|]. cbn [forallb] in H. apply andb_true_iff in H as [Hx Hr].
-  cbn [map concat]. rewrite IH by exact Hr. unfold utf8_enc, caseless_ascii in *.
-  replace (x <? 128) with true by lia. reflexivity.
-Qed.
-Lemma bytes_ltb_units_lt a : forall b, forallb caseless_ascii a = true -> forallb caseless_ascii b = true ->
-  zlen a = zlen b -> bytes_ltb a b = units_lt a b.
-Proof.
-  induction a as [|x a IH]; intros [|y b] Ha Hb Hl; try reflexivity.
-  - unfold zlen in Hl; cbn in Hl; lia.
-  - cbn [forallb] in Ha, Hb. apply andb_true_iff in Ha as [Hx Ha]. apply andb_true_iff in Hb as [Hy Hb].
-    cbn [bytes_ltb units_lt]. unfold caseless_ascii in Hx, Hy.
-    replace (upcase x) with x by lia. replace (upcase y) with y by lia.
-    rewrite IH; [reflexivity | exact Ha | exact Hb | rewrite !zlen_cons in Hl; lia].
-Qed.
-(* on upper-case / caseless ASCII names relic's comparator is the MS-CFB order *)
-Lemma relic_less_eq_cfb_less a b : forallb caseless_ascii a = true -> forallb caseless_ascii b = true ->
-  relic_less a b = cfb_less a b.
-Proof.
-  intros Ha Hb. unfold relic_less, less_dirent, less_dirent_gen, cfb_less. rewrite !utf8_ascii by assumption.
+  intros Hla Hlb Ha Hb. unfold relic_less, less_dirent, less_len_differs, less_len_ret, cfb_less.
+  pose proof (zlen_nonneg a). pose proof (zlen_nonneg b).
   destruct (zlen a <? zlen b) eqn:E1.
   - replace (2 * (zlen a + 1) =? 2 * (zlen b + 1)) with false by lia. cbn [negb]. lia.
   - destruct (zlen b <? zlen a) eqn:E2.
     + replace (2 * (zlen a + 1) =? 2 * (zlen b + 1)) with false by lia. cbn [negb]. lia.
     + replace (2 * (zlen a + 1) =? 2 * (zlen b + 1)) with true by lia. cbn [negb].
-      apply bytes_ltb_units_lt; [assumption | assumption | lia].
+      assert (Hn : less_n (2 * (zlen a + 1)) = zlen a).
+      { unfold less_n. rewrite Z.quot_div_nonneg by lia. replace (2 * (zlen a + 1)) with ((zlen a + 1) * 2) by lia.
+        rewrite Z.div_mul by lia. lia. }
+      rewrite Hn. apply (less_loop_units a b [] []); try assumption; try reflexivity; try lia.
+      unfold name_runes in *. unfold zlen in Hla. cbn in Hla |- *. unfold de_w_NameRunes in *. lia.
 Qed.
-(* outside that class they differ: "a" sorts before "B" in MS-CFB (A < B) but after it for relic (0x61 > 0x42) *)
-Lemma relic_less_vs_cfb_refuted : exists a b, relic_less a b <> cfb_less a b.
-Proof. exists [97], [66]. vm_compute. discriminate. Qed.
+
+(* the agreement domain, precisely: every code unit below 256; every surrogate half; and every code unit from 256 up that
+   unicode.ToUpper maps to itself or outside the 16-bit range (no upper-case form) *)
+Lemma unit_agrees_below_256 u : 0 <= u < 256 -> unit_agrees u = true.
+Proof.
+  intros H. assert (Hall : forallb unit_agrees (map Z.of_nat (seq 0 256)) = true) by (vm_compute; reflexivity).
+  rewrite forallb_forall in Hall. apply Hall. apply in_map_iff. exists (Z.to_nat u). split; [lia|]. apply in_seq. lia.
+Qed.
+Lemma upcase_id_from_256 u : 256 <= u -> upcase u = u.
+Proof. intros H. unfold upcase. repeat match goal with |- context [if ?c then _ else _] => destruct c eqn:?; try lia end. Qed.
+Lemma unit_agrees_from_256 u : 256 <= u -> unit_agrees u = (upper_unit u =? u).
+Proof. intros H. unfold unit_agrees. rewrite upcase_id_from_256 by exact H. reflexivity. Qed.
+Lemma unit_agrees_surrogate u : upper_unit_is_surrogate u = true -> unit_agrees u = true.
+Proof.
+  intros H. unfold unit_agrees, upper_unit. rewrite H. rewrite upcase_id_from_256; [apply Z.eqb_refl|].
+  unfold upper_unit_is_surrogate in H. lia.
+Qed.
+(* the packed MSI stream names (0x3800..0x4840) are inside the domain *)
+Lemma unit_agrees_msi_range u : 14336 <= u <= 18496 -> unit_agrees u = true.
+Proof.
+  intros H. assert (Hall : forallb unit_agrees (map (fun k => 14336 + Z.of_nat k) (seq 0 4161)) = true) by (vm_compute; reflexivity).
+  rewrite forallb_forall in Hall. apply Hall. apply in_map_iff. exists (Z.to_nat (u - 14336)). split; [lia|]. apply in_seq. lia.
+Qed.
+(* outside the domain the two orders differ: Greek small alpha (U+03B1, upper-cased by relic to U+0391) sorts before capital beta (U+0392) for relic only *)
+Lemma relic_less_vs_cfb_outside_domain : exists a b, relic_less a b <> cfb_less a b.
+Proof. exists [945], [914]. vm_compute. discriminate. Qed.
 
 (* cfb_less is a strict order on names: irreflexive and transitive (what the search-tree theorems need) *)
 Lemma units_lt_irrefl a : units_lt a a = false.
@@ -1002,14 +1037,9 @@ Lemma ent_lt_trans ents i j k : ent_lt ents i j = true -> ent_lt ents j k = true
 Proof. unfold ent_lt. apply cfb_less_trans. Qed.
 
 (* ================================================================== statements about the source as read by srcgen *)
-Lemma rb_as_coded_valid : rb_new_node_red = true -> rb_root_blackened = true ->
-  forall (A : Type) (lt : A -> A -> bool) l, rb_valid A (insert_all A lt rb_new_node_red rb_root_blackened l).
-Proof. intros -> -> A lt l. apply rb_insert_all_valid. Qed.
-Lemma rb_as_coded_refuted : rb_new_node_red = false ->
-  exists l : list Z, ~ rb_valid Z (insert_all Z Z.ltb rb_new_node_red rb_root_blackened l).
-Proof.
-  intros H. exists [0; 1; 2]. intros Hv. apply rb_ok_iff in Hv. revert H Hv. vm_compute. congruence.
-Qed.
+Lemma rb_as_coded_valid (A : Type) (lt : A -> A -> bool) l :
+  rb_valid A (insert_all A lt rb_new_node_red rb_root_blackened l).
+Proof. change rb_new_node_red with true. change rb_root_blackened with true. apply rb_insert_all_valid. Qed.
 Lemma rebuilt_tree_valid ents files :
   pairwise_cmp Z (ent_lt ents) (rev files) ->
   let t := insert_all Z (ent_lt ents) true true files in
